@@ -39,6 +39,7 @@ Fresh ==
     /\ client = [p \in Procs |-> <<>>]
     /\ stray = 0
     /\ records = <<>>
+    /\ lvl = [on |-> MwEnabled, n |-> 0]
 
 TInit == Fresh /\ l = 1
 
@@ -58,6 +59,7 @@ TReset == /\ Is("reset")
           /\ client' = [p \in Procs |-> <<>>]
           /\ stray' = 0
           /\ records' = <<>>
+          /\ lvl' = lvl
 
 TBegin     == Is("begin")     /\ Begin(Ev.p, Ev.rid, Ev.ops)
 TGetAttr   == Is("getattr")   /\ GetAttrObj(Ev.p, Ev.o)
